@@ -53,6 +53,14 @@ def _(values: Any) -> set[int]:
     return _drop_nulls_scalar(values)
 
 
+@find_nulls.register(type(pandas.NA))
+@find_nulls.register(type(pandas.NaT))
+def _(values: Any) -> set[int]:
+    # pandas' null scalars (e.g. `x.max()` of an all-null nullable column)
+    # are constants that are null.
+    raise ValueError("Constant value is null, invalidating all rows.")
+
+
 def _drop_nulls_scalar(values: Union[int, float]) -> set[int]:
     if isinstance(values, FactorValues):
         values = values.__wrapped__
@@ -140,6 +148,8 @@ def drop_rows(values: Any, indices: Sequence[int]) -> Any:
 @drop_rows.register(str)
 @drop_rows.register(numpy.number)
 @drop_rows.register(numpy.bool_)
+@drop_rows.register(type(pandas.NA))
+@drop_rows.register(type(pandas.NaT))
 def _(values: Any, indices: Sequence[int]) -> Any:
     # Constant values have no rows of their own: they are broadcast over
     # whichever rows remain.
